@@ -459,6 +459,11 @@ def nfa(
                 connect(compile(expr["expr"], cur), next)
                 cur = next
             if expr["max"] == -1:
+                if cur == from_:
+                    # `{0,}`: loop on a node of its own (as `*` does), not on the
+                    # entry node, which alternatives of an enclosing choice share
+                    cur = node()
+                    edge(from_, cur)
                 connect(compile(expr["expr"], cur), cur)
             else:
                 for _i in range(expr["min"], expr["max"]):
